@@ -34,6 +34,7 @@ type c10Spec struct {
 	Factor float64   `json:"factor,omitempty"` // global fertilisation factor (%)
 	Zero   bool      `json:"zero,omitempty"`   // global fertilisation factor 0 % (unfertilised scenario)
 	Start  string    `json:"start,omitempty"`  // first simulated day ("" = 10 April 2001)
+	Ext    int       `json:"ext,omitempty"`    // the annual output date lies Ext days after the end date: the run (the simulated period) is extended up to it
 	Spell  int       `json:"spell,omitempty"`  // how the schedule files are written: 0 plain; 1 records indented by two blanks; 2 by a tab; 3 fields separated by tabs; 4 CRLF line ends
 }
 
@@ -114,6 +115,12 @@ func c10Specs(tier string, seed int) []c10Spec {
 				}
 				n++
 				out = append(out, sp)
+				if w == "end" && (tier == "thorough" || n%2 == 0) {
+					// the same schedules in a run that is extended beyond its end date up to the annual output date:
+					// the days up to that date are simulated days, events dated there are inside the period
+					sp.Ext = 6
+					out = append(out, sp)
+				}
 			}
 		}
 	}
@@ -370,7 +377,10 @@ func c10RunSchedule(c *mc.Ctx, sp c10Spec, what string, fert, till, irr []c10Ev,
 	p.Config["EndDate"] = proj.DateStr(sp.Fmt, proj.D(isoAdd(c10Start, c10Len-1)))
 	p.Config["ManagementEvents"] = "1"
 	p.Config["Fertilization"] = fmt.Sprint(factor)
-	p.Config["AnnualOutputDate"] = map[bool]string{true: "0101", false: "0101"}[true]
+	p.Config["AnnualOutputDate"] = "0101"
+	if sp.Ext > 0 {
+		p.Config["AnnualOutputDate"] = proj.DateStr(sp.Fmt, proj.D(isoAdd(c10Start, c10Len-1+sp.Ext)))[:4]
+	}
 	if rot != nil {
 		p.Rotation = append(p.Rotation[:1], rot...)
 		p.Rotation = append(p.Rotation, proj.CropEntry{Crop: "WW", Sow: isoAdd(c10Start, 200), Harvest: isoAdd(c10Start, 400)})
@@ -395,7 +405,7 @@ func c10RunSchedule(c *mc.Ctx, sp c10Spec, what string, fert, till, irr []c10Ev,
 	if len(irr) > 0 {
 		p.Irr = []proj.Irr{{Date: isoAdd(c10Start, 1), MM: 1}} // switches the irrigation flag of the polygon file on; the file itself is overridden above
 	}
-	word := make([]string, c10Len+2)
+	word := make([]string, c10Len+2+sp.Ext)
 	for i := range word {
 		word[i] = "mild"
 	}
@@ -480,7 +490,7 @@ func c10RunSchedule(c *mc.Ctx, sp c10Spec, what string, fert, till, irr []c10Ev,
 		}
 		return o
 	}
-	last := c10Len - 1
+	last := c10Len - 1 + sp.Ext
 	nt := false
 	// ---- reference schedule per kind
 	type want struct {
